@@ -15,7 +15,8 @@ open Py Xs.Bind Xs.Dict Proofs.C04 Proofs.C04Witness
 
 /-- **dict_rt**: for both dictionary factories, every parser configuration and every
 environment: an instance in the fragment `valOKj` (typed str/int/bool, model-class, list and
-wrapped-list fields; `None` only where the field default is `None`; nested instances
+wrapped-list fields, QName values that read back, tokens fields (`xs:list`), compound fields (`Elements`: primitives by exact type, model instances singled out by their keys), `xs:anyAttribute` maps, wildcard fields — single, list, mixed — holding generic
+`AnyElement`s of any nesting, primitives and `None`; `None` only where the field default is `None`; nested instances
 unambiguous in their candidate pool) encodes to a JSON-native dictionary, and decoding that
 dictionary into the same class has exactly one admissible result: the instance itself. -/
 theorem dict_rt (e : BEnv) (Γ : Ctx) (fac : Factory) (cfg : ParserConfig) (n : Nat) (c : ClassId) (v : Val)
@@ -25,9 +26,8 @@ theorem dict_rt (e : BEnv) (Γ : Ctx) (fac : Factory) (cfg : ParserConfig) (n : 
   obtain ⟨n', hn⟩ := valOKj_succ h
   subst hn
   obtain ⟨fs, _, _, hv, _⟩ := valOKj_unpack h
-  subst hv
   refine ⟨.obj kvs, ?_, hnat, ?_⟩
-  · simpa only [encode] using henc
+  · rw [(encode_of_object Γ fac {} _ hv).1]; exact henc
   · simp only [decode, verifyType, J.isArr, Bool.false_eq_true, if_false]
     exact hdec cfg
 
@@ -38,12 +38,36 @@ theorem dict_rt_partial (e : BEnv) (Γ : Ctx) (fac : Factory) (cfg : ParserConfi
   dict_rt e Γ fac cfg n c v h
 
 example : ctxOKj okwCtx = true := by rfl
+/-- an attributes map, two tokens fields and mixed wildcard content (nested generic elements, text, a number, `None`,
+an `AnyElement` without qname) are inside the fragment, for both factories -/
+example : valOKj benv0 genwCtx .dict 4 "G".toList genw_value = true
+    ∧ valOKj benv0 genwCtx .filterNone 4 "G".toList genw_value = true
+    ∧ valOKj benv0 anywCtx .filterNone 3 "W".toList anyw_value = true := ⟨by rfl, by rfl, by rfl⟩
+/-- a compound field whose int choice precedes the str choice, holding the string "1" -/
+example : valOKj benv0 compCtx .dict 3 "H".toList comp_value = true := by rfl
 example : valOKj benv0 okwCtx .dict 3 "Doc".toList okw_value = true := by rfl
 example : valOKj benv0 okwCtx .filterNone 3 "Doc".toList okw_value = true := by rfl
 /-- a field of a base class with a loaded subclass is inside the fragment when the keys decide -/
 example : valOKj benv0 subCtx .dict 3 "P".toList sub_good = true := by rfl
 /-- … and outside it when they do not (the known finding) -/
 example : valOKj benv0 subCtx .dict 3 "P".toList sub_value = false := by rfl
+
+/-- **dict_rt_universe**: the ambiguity condition as a property of the class universe alone. In a
+universe where no loaded class has a loaded subclass (`noSubclassPools`, decidable on the exported
+contexts) typing is enough: every instance whose field values have the declared types (`valOKu`:
+`valOKj` without its per-instance pool condition) round-trips, for both factories.  Outside such
+universes `bind_complex_type` builds candidate pools and the per-instance condition of `dict_rt`
+decides (`subclass_winners` is the witness that it cannot be dropped). -/
+theorem dict_rt_universe (e : BEnv) (Γ : Ctx) (fac : Factory) (cfg : ParserConfig) (n : Nat) (c : ClassId) (v : Val)
+    (huni : noSubclassPools Γ = true) (h : valOKu e Γ fac n c v = true) :
+    ∃ j, encode Γ fac {} n v = .ok j ∧ j.native = true ∧ decode e Γ cfg n (.cls c) j = ND.pure v :=
+  dict_rt e Γ fac cfg n c v (valOKu_valOKj e Γ fac huni n c v h)
+
+example : noSubclassPools okwCtx = true ∧ noSubclassPools genwCtx = true
+    ∧ valOKu benv0 okwCtx .filterNone 3 "Doc".toList okw_value = true
+    ∧ valOKu benv0 genwCtx .dict 4 "G".toList genw_value = true := ⟨by rfl, by rfl, by rfl, by rfl⟩
+/-- the universe of the listed finding is outside, although the instance is well typed -/
+example : noSubclassPools subCtx = false ∧ valOKu benv0 subCtx .dict 3 "P".toList sub_value = true := ⟨by rfl, by rfl⟩
 
 /-- **encode_json_native**: the encoded form of an instance of the fragment only holds
 JSON-native values: `encode` is total into the JSON AST and every object is a proper mapping
@@ -66,7 +90,7 @@ theorem list_rt (e : BEnv) (Γ : Ctx) (fac : Factory) (cfg : ParserConfig) (n : 
     obtain ⟨n', hn⟩ := valOKj_succ (h v hv)
     subst hn
     obtain ⟨fs, _, _, hveq, _⟩ := valOKj_unpack (h v hv)
-    subst hveq; rfl
+    exact (encode_of_object Γ fac {} _ hveq).2
   have hall : ∀ v ∈ vs, ∃ j, encTopItem Γ fac {} n v = .ok j := by
     intro v hv
     obtain ⟨kvs, hk, _⟩ := rt_all e Γ fac n c v (h v hv)
